@@ -39,6 +39,30 @@ func c03Sizes(l PDULayout, tier string) []int {
 	for _, n := range []int{0, 1, 3, 4, 11, 12, 13, 19, 20, m - 1, m, m + 1, m + 4} {
 		add(n)
 	}
+	// cuts at the last three field boundaries (an image that stops exactly where a trailing field begins)
+	cut := m
+	for i, k := len(l.Fields)-1, 0; i >= 0 && k < 3; i-- {
+		f := l.Fields[i]
+		w := 0
+		switch f.Kind {
+		case "fs", "fb", "hex":
+			w = f.W
+		case "cs":
+			w = 1
+		case "u32x3":
+			w = 12
+		case "tlvs", "opts", "list", "body", "bodyb":
+			w = 0
+		default:
+			w = intBytes(f.Kind)
+		}
+		if w == 0 {
+			continue
+		}
+		cut -= w
+		add(cut)
+		k++
+	}
 	if w := listWidth(l); w > 0 && (tier == "thorough" || !hasK(l, "opts")) {
 		add(m + w)
 		add(m + w + 1)
@@ -134,7 +158,7 @@ func c03Jobs(tier string) []Job {
 	for codec := 0; codec <= 1; codec++ {
 		for _, m := range []int{0, 3, 4, 8} {
 			js = append(js, Job{Dir: "codec", Harness: "VH_C04_decode", Params: map[string]int{"M": m, "cur": 0, "codec": codec}, Name: fmt.Sprintf("codec%d.Decode_M%d", codec, m)})
-			js = append(js, Job{Dir: "codec", Harness: "VH_C04_blocked", Params: map[string]int{"M": m, "codec": codec, "fault": 0, "chunks": 2}, Name: fmt.Sprintf("codec%d.DecodeBlocked_M%d", codec, m), MaxPaths: 40000})
+			js = append(js, Job{Dir: "codec", Harness: "VH_C04_blocked", Params: map[string]int{"M": m, "codec": codec, "fault": 0, "chunks": 2, "dataerr": 0}, Name: fmt.Sprintf("codec%d.DecodeBlocked_M%d", codec, m), MaxPaths: 40000})
 		}
 	}
 	return js
@@ -149,7 +173,7 @@ func init() {
 		Bounds: map[string]string{
 			"input":      "every octet string of length N (all N octets symbolic): one job subsumes every truncation point, every substitution of count/length octets and every trailing garbage of that total length",
 			"auxiliary":  "dispatchers (N around the header size), header peekers (N 0..24), TLV/option parsers (N <= 10, thorough 14), ParseLongSmsContent (N <= 10), receipt parsers (N <= 12, thorough 14), gsm7 Unpack (N <= 14), Decode (N <= 2), decoding transformers (N <= 3), content decoders (N <= 2, every coding number), frame extractors (M <= 8)",
-			"N":          "quick: {0,1,3,4,11,12,13,19,20, min-1, min, min+1, min+4, min+one list entry(+1), min+5/+8 for optional parameters}; thorough: every N up to min+12 and around two list entries",
+			"N":          "quick: {0,1,3,4,11,12,13,19,20, min-1, min, min+1, min+4, the last three field boundaries below min, min+one list entry(+1), min+5/+8 for optional parameters}; thorough: every N up to min+12 and around two list entries",
 			"no-hang":    "per-path instruction budget 400000+4000*N; exceeding it on a feasible path is reported as a violation (label unwind) and replayed natively under a wall-clock limit",
 			"allocation": "every make() whose size is symbolic must satisfy size <= 16*N+1024 at the allocation site",
 		},
